@@ -2253,6 +2253,8 @@ impl ProxyConfiguration for HttpsProxy {
             .listeners
             .get(&Token(token.0))
             .ok_or(AcceptError::IoError)?;
+        #[cfg(feature = "verif-hooks")]
+        crate::verif::tune_socket(&frontend_sock, "front");
         if let Err(e) = frontend_sock.set_nodelay(true) {
             error!(
                 "{} error setting nodelay on front socket({:?}): {:?}",
